@@ -172,15 +172,26 @@ def match_dihedral_interaction_types(atoms, interaction_dict):
         a tuple of 4 atom indices, which are the matching key
         to the interaction dict.
     """
+    # all wildcard patterns ordered by the number of wildcards; note that
+    # for each pattern also the reversed key is looked up, so the list has
+    # to contain each pattern in both directions to be independent of the
+    # direction in which the atoms of the interaction are listed
     patterns = [(0, 1, 2, 3),
                 ('X', 1, 2, 3),
                 (0, 'X', 2, 3),
                 (0, 1, 'X', 3),
+                (0, 1, 2, 'X'),
                 ('X', 1, 2, 'X'),
                 ('X', 'X', 2, 3),
                 (0, 'X', 'X', 3),
                 ('X', 1, 'X', 3),
-                ('X', 'X', 'X', 3)]
+                (0, 'X', 2, 'X'),
+                (0, 1, 'X', 'X'),
+                ('X', 'X', 'X', 3),
+                ('X', 'X', 2, 'X'),
+                ('X', 1, 'X', 'X'),
+                (0, 'X', 'X', 'X'),
+                ('X', 'X', 'X', 'X')]
 
     for pattern in patterns:
         key = _wildcard_dih(atoms, pattern)
